@@ -7,6 +7,5 @@ Local Open Scope Qc_scope.
 Definition Qc_gtb (a b : Qc) : bool := Qc_ltb b a.
 
 Definition q_mis2 (G : graph) (r : list Qc) : option (list st) := mis2 Qc Qc_gtb 0 G r.
-Definition q_mis2_fuel (G : graph) (r : list Qc) (fuel : nat) : option (list st) := mis2_fuel Qc Qc_gtb 0 G r fuel.
 Definition q_aggregate (A : list (list (nat * Qc))) (S : graph) (states : list Z) (r : list Qc)
   : option (list Z * nat) := aggregate Qc 0 Qcplus Qcabs Qc_ltb A S states r.
